@@ -271,13 +271,14 @@ _fixed_retarder('half_wave', 'JonesHalfWaveRetarder', math.pi)
           ['C17'], numeric_only=True)      # bounded: the complex 3x3 products exceed the algebraic back ends' budgets
 def update_intensity(c):
     """for an arbitrary accumulated (real) polarization matrix and launch direction: the launched field is transverse and of unit
-    norm, a polarized state's intensity is |P E|^2, and the unpolarized intensity is the mean of the intensities of *any* two
+    norm, a polarized state's intensity is i0 |P E|^2 (i0 the launch intensity), and the unpolarized intensity is the mean of the intensities of *any* two
     orthogonal states (ex, ey e^{i d}), (-ey, ex e^{i d})"""
     PRm = c.mod('optiland.rays.polarized_rays')
     PS = c.mod('optiland.rays.polarization_state').PolarizationState
     k0 = c.unit3('L0', 'M0', 'N0')
     c.require(k0[1] * k0[1] + k0[2] * k0[2] > 0)          # k not along x (documented limitation: raises otherwise)
-    rays = PRm.PolarizedRays(c.arr(0.0), c.arr(0.0), c.arr(0.0), c.arr(k0[0]), c.arr(k0[1]), c.arr(k0[2]), c.arr(1.0), c.arr(0.55))
+    i0 = c.real('i0', 0.1, 3)                               # launch intensity of the ray (fix 58a65d0: both branches scale with it)
+    rays = PRm.PolarizedRays(c.arr(0.0), c.arr(0.0), c.arr(0.0), c.arr(k0[0]), c.arr(k0[1]), c.arr(k0[2]), c.arr(i0), c.arr(0.55))
     P = [[c.real('p%d%d' % (i, j), -1, 1) for j in range(3)] for i in range(3)]
     rays.p = c.np.array([P])
     ex, ey = c.real('ex', -1, 1), c.real('ey', -1, 1)
@@ -312,7 +313,7 @@ def update_intensity(c):
     for i in range(3):
         comp = sum(P[i][j] * c.val(Ea[j]) for j in range(3))
         want = want + comp * comp.conjugate()
-    c.ensure_eq('C17.update_intensity.polarized_is_squared_norm_of_the_propagated_field', Ia, want)
+    c.ensure_eq('C17.update_intensity.polarized_is_squared_norm_of_the_propagated_field', Ia, i0 * want)
     rays.update_intensity(sb)
     Ib = c.val(rays.i)
     rays.update_intensity(PS(False))
